@@ -45,6 +45,8 @@ pub fn alphabet() -> Vec<BOp> {
         BOp::Import(0),
         BOp::Import(1),
         BOp::ExtInstVia,
+        BOp::DecorateFunction(0),
+        BOp::BeginFunctionId(7),
     ]
 }
 
@@ -73,6 +75,20 @@ pub fn run(tier: Tier) -> Run {
         prefixes.push(p);
     }
     prefixes.push(vec![BOp::BeginFunction, BOp::BeginBlock, BOp::Nop, BOp::Nop]);
+    // two functions carrying the SAME (explicit) result id, the first with one block, the second with two, both named;
+    // and a function that is the target of a linkage decoration
+    let same_id = vec![
+        BOp::BeginFunctionId(7), BOp::BeginBlock, BOp::Ret, BOp::EndFunction,
+        BOp::BeginFunctionId(7), BOp::BeginBlock, BOp::Ret, BOp::BeginBlock, BOp::Ret, BOp::EndFunction, BOp::NameFunction(0),
+    ];
+    prefixes.push(same_id.clone());
+    {
+        let mut p = same_id.clone();
+        p.extend([BOp::SelectFunction(Some(1)), BOp::SelectBlock(Some(1))]);
+        prefixes.push(p);
+    }
+    prefixes.push(vec![BOp::BeginFunction, BOp::DecorateFunction(0)]);
+    prefixes.push(vec![BOp::BeginFunction, BOp::BeginBlock, BOp::Ret, BOp::EndFunction, BOp::DecorateFunction(0), BOp::SelectFunction(Some(0))]);
     prefixes.push(vec![BOp::BeginFunction, BOp::BeginBlock, BOp::Ret, BOp::BeginBlock, BOp::IAdd]);
     let d_cont = tier.pick(3, 4);
     let mut cont_transitions = 0u64;
